@@ -4,6 +4,12 @@ G11  in RowLegalizer::getDisplacement every mutation of the committed state (cum
      new bounds) is edge-dominated by update == true
 R6   every bound popped while update == false was saved first, and on the update == false exit all saved bounds are
      pushed back
+TS   the choice between "stay at the last bound passed" and "go to the target" after the descent loop is consistent with
+     the loop's descent test on the running slope: it jumps only on signs on which the loop would still descend, and
+     stays on a descending sign at most on the tie (slope == 0)
+BP   every bound pushed into the queue has a position provably >= begin_ from the guards and stated invariants (asserts)
+     that dominate the push
+DS   a cached placement kept by a const member is reset by every writer of the committed state, on every path
 QP   getCost is getDisplacement(..., update=false) and push is getDisplacement(..., update=true); clear() resets all three
      state members
 """
@@ -30,6 +36,9 @@ def run(ctx, rep, tier):
     prog, eff = ctx.prog, ctx.eff
     rep.rule("G11", "committed-state mutations in getDisplacement dominated by update == true", 3)
     rep.rule("R6", "bounds popped during a query are saved and all pushed back", 2)
+    rep.rule("TS", "final position selector is the exact complement of the descent condition on the slope", 1)
+    rep.rule("BP", "bounds are pushed at positions >= begin_", 2)
+    rep.rule("DS", "derived state of RowLegalizer is reset by every writer of its inputs", 1)
     rep.rule("QP", "getCost queries (update=false), push commits (update=true), clear resets everything", 3)
     f = prog.func1(CQ + "RowLegalizer::getDisplacement")
     g = cfg_of(f)
@@ -140,3 +149,152 @@ def run(ctx, rep, tier):
         rep.holds("QP", c.decl, c, "clear() resets bounds, constrainingPos_ and cumWidth_")
     else:
         rep.violation("QP", c.decl, c, "clear() leaves %s untouched" % sorted({"cumWidth_", "bounds", "constrainingPos_"} - w), "", key="RowLegalizer::clear|incomplete reset")
+
+    check_tie_selector(ctx, rep, f)
+    check_bound_positions(ctx, rep, f)
+    from .common import check_derived_state
+    scope = {h.short for h in prog.funcs.values() if h.cls == CQ + "RowLegalizer" and h.kind == "CXXMethodDecl" and h.is_const}
+    n0 = len([i for i in rep.instances if i["rule"] == "DS"])
+    nds = check_derived_state(ctx, rep, "DS", prog, scope=scope)
+    if nds == 0:
+        rep.unknown("DS", None, None, "const members of RowLegalizer", "none found (shape changed)")
+    elif len([i for i in rep.instances if i["rule"] == "DS"]) == n0:
+        rep.holds("DS", "-", None, "%d const member functions of RowLegalizer keep no derived state" % nds)
+
+
+def _atoms_rel(c):
+    """Flatten a condition into its relational atoms (through &&, ||, !)."""
+    if c[0] == "un" and c[1] == "!":
+        return _atoms_rel(c[2])
+    if c[0] == "bin" and c[1] in ("&&", "||"):
+        return _atoms_rel(c[2]) + _atoms_rel(c[3])
+    return [c]
+
+
+NEGREL = {"<": ">=", "<=": ">", ">": "<=", ">=": "<", "==": "!=", "!=": "=="}
+FLIPREL = {"<": ">", "<=": ">=", ">": "<", ">=": "<=", "==": "==", "!=": "!="}
+
+
+def _norm_rel(c, v):
+    """(op, other) with the variable v on the left, or None."""
+    if c[0] != "bin" or c[1] not in NEGREL:
+        return None
+    if c[2] == v:
+        return c[1], c[3]
+    if c[3] == v:
+        return FLIPREL[c[1]], c[2]
+    return None
+
+
+def check_tie_selector(ctx, rep, f):
+    """TS. Name-free roles: the *slope* is the local integer that the descent loop increases by bounds.top().weight and tests in its
+    condition; the *last bound passed* is the local the loop assigns bounds.top().absolutePos to."""
+    loops = [x for x in walk(f.body) if x.get("kind") == "WhileStmt"]
+    if len(loops) != 1:
+        rep.unknown("TS", f.decl, f, "descent loop", "expected one while loop in getDisplacement, found %d" % len(loops))
+        return
+    lp = loops[0]
+    ch = [c for c in inner(lp) if isinstance(c, dict) and c.get("kind")]
+    cond, body = canon(ch[-2]), ch[-1]
+    slope = pos = None
+    for x in walk(body):
+        if x.get("kind") == "CompoundAssignOperator" and x.get("opcode") == "+=":
+            l, r = children(x)
+            rc = canon(r)
+            if rc[0] == "field" and rc[1].endswith("Bound::weight"):
+                slope = canon(l)
+        if x.get("kind") == "BinaryOperator" and x.get("opcode") == "=":
+            l, r = children(x)
+            rc = canon(r)
+            if rc[0] == "field" and rc[1].endswith("Bound::absolutePos"):
+                pos = canon(l)
+    if slope is None or pos is None:
+        rep.unknown("TS", lp, f, "descent loop", "running slope / last-bound variable not recognised (shape changed)")
+        return
+    descent = [r for r in (_norm_rel(a, slope) for a in _atoms_rel(cond)) if r is not None]
+    if len(descent) != 1:
+        rep.unknown("TS", lp, f, "descent loop", "expected exactly one test of the slope in the loop condition, found %d" % len(descent))
+        return
+    dop, dother = descent[0]
+    sels = []
+    for x in walk(f.body):
+        if x.get("kind") == "ConditionalOperator":
+            c = canon(x)
+            if pos in (c[2], c[3]):
+                sels.append((x, c))
+    # an if/else form of the same choice
+    if not sels:
+        rep.unknown("TS", f.decl, f, "final position", "no ?: choosing the last bound passed was found after the loop (shape changed)")
+        return
+    for x, c in sels:
+        r = _norm_rel(c[1], slope)
+        if r is None:
+            rep.unknown("TS", x, f, "final position selector %s" % pretty(c)[:80], "its condition is not a single test of the slope")
+            continue
+        op, other = r
+        stay_op = op if c[2] == pos else NEGREL[op]
+        if other != ("lit", "0") or dother != ("lit", "0"):
+            rep.unknown("TS", x, f, "final position selector %s" % pretty(c)[:80], "the slope is not compared with the literal 0 in both tests")
+            continue
+        SIGNS = {"<": {"neg"}, "<=": {"neg", "zero"}, ">": {"pos"}, ">=": {"pos", "zero"}, "==": {"zero"}, "!=": {"neg", "pos"}}
+        D = SIGNS[dop]                       # the loop keeps descending on these signs of the slope
+        J = {"neg", "zero", "pos"} - SIGNS[stay_op]      # the selector jumps to the target on these
+        why = []
+        if not J <= D:
+            why.append("the cell jumps to its target when the slope is %s although the descent loop has already stopped on that sign: "
+                       "bounds between the last one passed and the target were never priced, so the reported cost is too low" % "/".join(sorted(J - D)))
+        if not (D - J) <= {"zero"}:
+            why.append("the cell stays at the last bound passed when the slope is %s although moving on still lowers the cost" % "/".join(sorted((D - J) - {"zero"})))
+        if "neg" not in D or "pos" in D:
+            why.append("the descent test %s %s 0 does not separate negative from positive slopes" % (pretty(slope), dop))
+        if not why:
+            rep.holds("TS", x, f, "stays at the last bound passed iff %s %s 0; descends while %s %s 0: jump region within the descent region, "
+                      "they differ at most on the tie" % (pretty(slope), stay_op, pretty(slope), dop))
+        else:
+            rep.violation("TS", x, f, "final position selector (%s %s 0 stays) vs descent test (%s %s 0)" % (pretty(slope), stay_op, pretty(slope), dop),
+                          "; ".join(why), key="RowLegalizer::getDisplacement|selector inconsistent with the descent test")
+
+
+def check_bound_positions(ctx, rep, f):
+    from ..order import Facts, Prover
+    from .common import expand_locals
+    g = cfg_of(f)
+    bq = CQ + "RowLegalizer::bounds"
+    begin = ("field", CQ + "RowLegalizer::begin_", ("this",))
+    n = 0
+    for x in walk(f.body):
+        if x.get("kind") != "CXXMemberCallExpr":
+            continue
+        ci = callee_info(x)
+        if not ci or ci["name"] not in ("push", "emplace") or ci["obj"] is None or canon(ci["obj"]) != ("field", bq, ("this",)):
+            continue
+        a = canon(ci["args"][0]) if ci["args"] else None
+        if a is None or a[0] != "construct" or len(a) < 4:
+            continue      # re-push of a saved bound (a variable): its position was checked when it was first pushed
+        posn = a[-1] if len(a) == 4 else a[3]
+        n += 1
+        site = g.node_for(x)
+        F = Facts()
+        for ast, val, en in g.dom_edges(site, asserts=True):
+            if isinstance(val, bool):
+                F.add_cond(canon(ast), val)
+        P = Prover(F, orthant=False)
+        what = "bound pushed at %s" % pretty(posn)[:70]
+        if P.prove_ge(posn, begin):
+            rep.holds("BP", x, f, what, ">= begin_ from %d dominating guard(s) / stated invariant(s)" % len(F.facts))
+            continue
+        F2 = Facts()
+        for a_, r_, b_ in F.facts:
+            F2.add(expand_locals(ctx, f, a_), r_, expand_locals(ctx, f, b_))
+        P2 = Prover(F2, orthant=False)
+        cm = P2.countermodel(expand_locals(ctx, f, posn), begin)
+        if cm is not None:
+            env, va, vb = cm
+            rep.violation("BP", x, f, what, "not implied by the guards that dominate the push: e.g. %s gives position %.4g < begin_ %.4g; a bound left "
+                          "of the row start makes later insertions integrate the cost below begin_ and report too little" % (
+                              ", ".join("%s=%s" % kv for kv in sorted(env.items())[:6]), va, vb),
+                          key="RowLegalizer::getDisplacement|bound below begin_")
+        else:
+            rep.unknown("BP", x, f, what, "neither provable nor refutable from the dominating guards")
+    if n == 0:
+        rep.unknown("BP", f.decl, f, "bound pushes", "no push of a newly constructed Bound found (shape changed)")
